@@ -10,6 +10,30 @@ COMMON_ASSUMPTIONS = [
 ]
 
 PROPS = {
+    "C19": {
+        "engines": [{"name": "sched"},
+                    {"name": "sched_instr", "variant": "instr"},
+                    {"name": "sched_race", "variant": "race", "gomaxprocs": "2", "env": {"GORACE": "halt_on_error=1"}, "nondeterministic": True, "replay_attempts": 20},
+                    {"name": "sched_race", "variant": "race", "gomaxprocs": "4", "env": {"GORACE": "halt_on_error=1"}, "nondeterministic": True, "replay_attempts": 20},
+                    {"name": "sched_race", "variant": "race", "gomaxprocs": "16", "env": {"GORACE": "halt_on_error=1"}, "nondeterministic": True, "replay_attempts": 20}],
+        "level": "exploration",
+        "technique": "seeded cooperative scheduler over real goroutines parked at yield points (io.ReaderAt seam; go/ast-inserted yields in a scratch copy), sequential repetition histories with a reflective deep snapshot of the object, plus free-running goroutines under the Go race detector",
+        "design_ref": "DESIGN.md section 3 (C19), 2.3 (sched)",
+        "level_text": ("The quantifier is over schedules and repetition orders. Mode 1 runs seeded sequences with repetition on one object and compares every result with the first and a deep snapshot "
+                       "(unexported fields, buffer cursors) with the initial one. Mode 2 serialises 2-16 client goroutines: exactly one runs, the processor changes hands only at yield points, and the "
+                       "switch list (PCT-style few switches, dense, bursts) is drawn from the seed, logged, shrunk and replayed exactly; the instrumented variant adds a yield at every function entry "
+                       "and loop head of authenticode, pkcs7, efi/signature, efi/util and efivarfs. Mode 3 lets the same clients run freely under -race at GOMAXPROCS 2/4/16, because the serialising "
+                       "scheduler orders all accesses and would hide data races from the detector. Exploration: schedules are sampled."),
+        "level_note": ("Trusted: the scheduler (hand-off over channels), deepDump (reflect+unsafe), the Go race detector (sound, not complete). Mode 3 is monitored real concurrency, not simulation: "
+                       "its interleaving is not chosen by the seed and its replay re-runs the same assignment up to 20 times; results-equality checks in mode 3 are deterministic."),
+        "rule": ("Objects: a signed image parsed from a simulated medium (pegen layout or fixture, 1-2 signers), a signature database (3 variants), a signed-update value with its descriptor. "
+                 "Ops: Hash/Bytes/Open/Signatures/Verify(signer)/Verify(other); Bytes/Marshal/BytesExists(hit,miss)/SigDataExists/Exists; Marshal/Bytes/descriptor Marshal/Verify. "
+                 "Non-trivial: mode 1 an operation repeated at least twice; mode 2 at least two clients and one context switch; mode 3 at least two clients. Distinct = distinct event-log hash; "
+                 "distinct_schedules = distinct effective context-switch lists."),
+        "exhaustive": lambda tier: False,
+        "components": {"real": REAL + "; for the instrumented variant the same tree with inserted simyield.Y() calls (no other change)", "stub": "simreader (image medium, yield point), seeded scheduler, synctest clock for object construction, race detector runtime (mode 3)"},
+        "assumptions": COMMON_ASSUMPTIONS + ["the race detector reports only races that occur in the executions it observes"],
+    },
     "C03": {
         "engines": [{"name": "signhist"}],
         "level": "exploration",
@@ -137,6 +161,8 @@ ENGINE_KINDS = {
     "varsign_tz": "same as varsign, zone configured through the TZ environment variable of the worker process",
     "varsign": "simulated clock (synctest) x zone configurations; byte-exact layout and independent CMS verification",
     "signhist": "seeded signing histories on generated PE images under a simulated clock; independent PE/CMS readers as oracle",
+    "sched_instr": "sched against a scratch copy of /repo with go/ast-inserted yield points (function entries, loop heads)",
+    "sched_race": "sched mode 3: the same clients free-running under the race detector at GOMAXPROCS 2/4/16",
     "sched": "cooperative seeded scheduler over real goroutines parked at yield points; sequential-history and race-detector modes",
 }
 
@@ -153,5 +179,4 @@ NOT_APPLICABLE = {
     "C16": "depends on the option matrix of third-party producers at build time, not on any runtime behaviour of an environment",
     "C17": "pure conversions",
     "C18": "pure decoding and the composition of two pure calls on a fixed store",
-    "C19": "claimed in DESIGN.md (engine sched); check not built yet",
 }
